@@ -371,7 +371,47 @@ def r4_task_registry(ctx):
         ctx.info('no task_reference_holder.add sites found')
 
 
+def r5_admission_rollback(ctx):
+    """a refused (duplicate) admission leaves no membership behind: on the
+    paths of BaseManager.connect that return None every completed room
+    entry is undone."""
+    m = ctx.model
+    f = m.method('BaseManager', 'connect')
+    construct = 'BaseManager.connect'
+
+    def raiser(e):
+        if e.callee() == 'basic_enter_room':
+            return {'ValueDuplicationError'}
+        return None
+    run = run_function(f, m, raiser=raiser, max_iter=2)
+    n = 0
+    for p in run.paths:
+        if not (p.exit == 'return' and is_const(p.value, None)):
+            continue
+        n += 1
+        failed = {id(e.extra.origin) for e in p.events
+                  if e.kind == 'caught' and e.extra is not None and
+                  e.extra.origin is not None}
+        done = [e for e in p.calls('basic_enter_room')
+                if id(e) not in failed]
+        undone = p.calls('basic_leave_room')
+        ctx.check(len(done) <= len(undone), construct, 'refused admission '
+                  '(None returned): no room entry survives', key='rollback',
+                  reason='a duplicate connection is refused after %d room '
+                  'entr%s for the freshly generated sid had already been '
+                  'made and nothing removes %s: the orphan sid stays in '
+                  'rooms forever' % (len(done), 'y' if len(done) == 1
+                                     else 'ies', 'it' if len(done) == 1
+                                     else 'them'), where=where(f))
+    if not n:
+        ctx.bad(construct, 'no-refusal-path', 'connect has no path that '
+                'refuses a duplicate', where(f))
+
+
 def run(ctx):
+    ctx.rule('C11.R5', 'a refused admission leaves no membership behind',
+             floor=1)
+    r5_admission_rollback(ctx)
     ctx.rule('C11.R1', 'every derived per-client table is released at '
              'transport end / in basic_disconnect on every path', floor=9)
     for fam in SA:
